@@ -35,7 +35,8 @@ PROP = "C08"
 LEVEL = "exploration"
 ENGINE = "enum"
 RULE = ("every expression spec of the lattice: all ExprInt for widths 1..128 x boundary values (+ out-of-range and negative "
-        "constructor arguments), identifiers over 12 names (quotes, backslashes, non-ASCII, control, empty) x 5 sizes, "
+        "constructor arguments), identifiers over 12 names (quotes, backslashes, non-ASCII, control, empty) + 14 combinations of them x 5 sizes, "
+        "the same 26 strings as operator names, "
         "locations, every node kind over these leaves (depth 1) and over depth-1 children (depth 2); distinct = norm(spec); "
         "non-trivial = the spec has a name outside [a-z], a constructor argument that needs normalisation, a width > 64, "
         "an arity-1 composition, or nests a non-leaf child")
@@ -51,6 +52,9 @@ ASSUMPTIONS = ["identifier names are str (not bytes)",
                "components of an assignment to a slice are the completed (destination, source) pair the constructor documents"]
 
 NAMES = ["a", "a b", "a'b", 'a"b', "a\\b", "a\\'b", "é", "日本", "\n", "", "ab\\", "a'\"b"]
+# combinations: what repr() escapes (backslash, quotes, non-printables) next to what it prints verbatim (non-ASCII)
+NAMES_MIX = ["\\é", "日\n", "é\t", "日\x00", "é'\"", "\x85é", "é\\'日\n", "a\\\"é", "日'", 'é"', "\u2028é", "\U0001F600\\",
+             "\\x41é", "é\\n"]
 ID_SIZES = [1, 8, 16, 32, 128]
 PROTOCOLS = [0, 1, 2, 3, 4, 5]
 
@@ -127,6 +131,9 @@ def norm(s):
     raise ValueError(k)
 
 
+KNOWN_OPS = set(BIN_OPS) | set(UN_OPS) | set(NARY3) | set(WC3) | {"segm", "FLAG_SUB_OF", "<<<"}
+
+
 def name_class(n):
     fl = []
     if n == "":
@@ -137,9 +144,9 @@ def name_class(n):
         fl.append("squote")
     if '"' in n:
         fl.append("dquote")
-    if any(ord(c) < 32 for c in n):
+    if any(not c.isprintable() for c in n):
         fl.append("control")
-    if any(ord(c) > 127 for c in n):
+    if any(ord(c) > 127 and c.isprintable() for c in n):
         fl.append("non-ascii")
     if " " in n:
         fl.append("space")
@@ -159,7 +166,9 @@ def skel(s):
     if k == "compose":
         return "ExprCompose[parts=%s]" % (len(s) - 1 if len(s) - 1 < 3 else "3+")
     if k == "op":
-        return "ExprOp[%s/%d]" % (s[1], len(s) - 2)
+        if s[1] in KNOWN_OPS:
+            return "ExprOp[%s/%d]" % (s[1], len(s) - 2)
+        return "ExprOp[op-name:%s]" % name_class(s[1])
     if k == "assign":
         return "ExprAssign[dst:%s]" % s[1][0]
     return {"mem": "ExprMem", "slice": "ExprSlice", "cond": "ExprCond"}[k]
@@ -441,6 +450,38 @@ def fam_leaves(thorough):
     return out
 
 
+def fam_names(thorough):
+    """hostile names and their combinations as identifier names AND as operator names, bare and under every node kind"""
+    out = []
+    a, b = ("id", "a", 8), ("int", 1, 8)
+    for n in NAMES_MIX:
+        for sz in ID_SIZES:
+            out.append(("id", n, sz))
+    for n in NAMES + NAMES_MIX:
+        for x in (a, ("id", n, 8)):
+            out.append(("op", n, x))
+            out.append(("op", n, x, b))
+            out.append(("op", n, b, x, a))
+        out.append(("op", n, ("op", n, a), ("id", n, 8)))
+        out.append(("mem", ("op", n, a, b), 16))
+        out.append(("slice", ("op", n, a), 1, 4))
+        out.append(("compose", ("op", n, a), ("op", n, b)))
+    for n in NAMES_MIX:
+        q = ("id", n, 8)
+        c = ("id", n, 1)
+        out += [("op", "+", q, a), ("op", "-", q), ("op", "+", a, q, b), ("cond", c, q, a), ("cond", q, a, q), ("mem", q, 8), ("mem", q, 64),
+                ("slice", q, 0, 8), ("slice", q, 3, 5), ("compose", q), ("compose", c, q), ("compose", q, a, c), ("assign", q, a),
+                ("assign", ("mem", q, 8), q), ("assign", ("slice", ("id", n, 16), 0, 8), q), ("op", "==", q, a), ("op", "zeroExt_16", q),
+                ("op", "segm", ("id", n, 16), q), ("op", "FLAG_EQ_ADDWC", q, a, c)]
+        out += [("op", "+", ("op", "-", q), ("mem", q, 8)), ("cond", ("op", "==", q, a), ("slice", ("id", n, 16), 8, 16), q),
+                ("compose", ("cond", c, q, a), ("mem", q, 8)), ("mem", ("op", "+", q, b), 8), ("assign", q, ("compose", ("slice", q, 0, 4), ("slice", a, 4, 8)))]
+        if thorough:
+            for m in NAMES + NAMES_MIX:
+                out.append(("op", "+", q, ("id", m, 8)))
+                out.append(("compose", ("id", m, 8), q))
+    return out
+
+
 def pools(thorough):
     L8 = [("id", n, 8) for n in NAMES] + [("int", 0, 8), ("int", 1, 8), ("int", 0x80, 8), ("int", -1, 8), ("loc", 1, 8)]
     L8r = [("id", "a", 8), ("id", "a\\'b", 8), ("id", "日本", 8), ("id", "ab\\", 8), ("int", 0xFF, 8), ("loc", 7, 8)]
@@ -596,7 +637,7 @@ def fam_d2(thorough):
     return out
 
 
-FAMILIES = {"ints": fam_ints, "leaves": fam_leaves, "d1": fam_d1, "d2": fam_d2}
+FAMILIES = {"ints": fam_ints, "leaves": fam_leaves, "names": fam_names, "d1": fam_d1, "d2": fam_d2}
 _fam_cache = {}
 
 
@@ -661,10 +702,10 @@ def run(ctx):
     for f in FAMILIES:
         family(f, thorough)
     shards = []
-    for fam in ("ints", "leaves", "d1", "d2"):
-        k = 4 if fam == "leaves" else nsh
+    for fam in ("ints", "leaves", "names", "d1", "d2"):
+        k = 4 if fam in ("leaves", "names") else nsh
         shards += [("expr", fam, thorough, i, k) for i in range(k)]
-    shards += [("pairs", "ints+leaves+d1+d2", thorough, 0, 1)]
+    shards += [("pairs", "ints+leaves+names+d1+d2", thorough, 0, 1)]
     res, how = amap(ctx, _shard, shards)
     for r in res:
         ctx.add_violations(r["vs"])
@@ -679,7 +720,7 @@ def run(ctx):
         "samples": [r["sample"] for r in res if r["sample"]][:5],
         "exhaustive": True,
         "execution": how,
-        "bounds": {"names": NAMES, "id_sizes": ID_SIZES, "int_widths": "1..128 x boundary(w) + 8 out-of-range/negative arguments",
+        "bounds": {"names": NAMES, "names_combined": NAMES_MIX, "operator_names": "all of names + names_combined", "id_sizes": ID_SIZES, "int_widths": "1..128 x boundary(w) + 8 out-of-range/negative arguments",
                    "max_depth": 2, "family_sizes": sizes, "pickle_protocols": PROTOCOLS},
         "oracle_applications": sum(r["n"] for r in res) * (len(ORACLES) + 6),
         "one_component_neighbours_compared": sum(r["neighbours"] for r in res),
